@@ -144,10 +144,24 @@ type vOp struct {
 	setTag bool    // set_sum: "set:" (true) or "sum:" (false)
 }
 
+var (
+	vSharedOrd    uint64
+	vSharedOrdSet bool
+)
+
 // vSymOp draws a symbolic operation for policy p.
 func vSymOp(p int, allowDelete bool, valLen int) vOp {
 	var o vOp
-	o.ord = sym.U64("ord")
+	if sym.Param("SAMEORD", 0) == 1 {
+		// every operation of the run carries the same (arbitrary) ordinal: the regime
+		// where only the stable order of recording decides, without sort forks
+		if !vSharedOrdSet {
+			vSharedOrd, vSharedOrdSet = sym.U64("ord"), true
+		}
+		o.ord = vSharedOrd
+	} else {
+		o.ord = sym.U64("ord")
+	}
 	if allowDelete && sym.Choice("delete", 2) == 1 {
 		o.del = true
 		o.key = sym.Choice("prefix", len(vPrefixes))
